@@ -188,3 +188,9 @@ pub fn put16(b: &mut [u8], o: usize, v: u16) {
 pub fn put32(b: &mut [u8], o: usize, v: u32) {
     b[o..o + 4].copy_from_slice(&v.to_le_bytes());
 }
+
+/// `par_map` with a wall-clock deadline: items not started before the deadline are skipped (None).
+pub fn par_map_until<T: Send, F: Fn(usize) -> T + Sync>(n: usize, deadline: std::time::Instant, f: F) -> Vec<Option<T>> {
+    let g = |i: usize| if std::time::Instant::now() >= deadline { None } else { Some(f(i)) };
+    par_map(n, g)
+}
